@@ -5,6 +5,7 @@ from tools.props.match_units import MatchUnit
 
 class P(Property):
     id = "C01"
+    gen_targets = ["Kernels"]
 
     def units(self, tier):
         return [MatchUnit(("C01",))]
